@@ -28,6 +28,10 @@ type C19Event struct {
 type C19Script struct {
 	AutoReconnect bool       `json:"autoReconnect"` // value passed to Start
 	Events        []C19Event `json:"events"`
+	// ViaManager: the announcement is requested through a real MdnsManager that uses the provider
+	// (AnnounceMdnsEntry / UnannounceMdnsEntry / SetAutoAccept), as the hub does; "announce" N then
+	// means: auto accept = (N even), announce
+	ViaManager bool `json:"viaManager,omitempty"`
 }
 
 func c19Txt(i int) []string {
@@ -57,13 +61,35 @@ func runC19(sc C19Script) *c19Result {
 		seen = append(seen, resolved{name, remove})
 		mu.Unlock()
 	}
-	if !prov.Start(sc.AutoReconnect, cb) {
+	var mgr, twin *mdns.MdnsManager
+	twinProv := &FakeProvider{}
+	if sc.ViaManager {
+		// the manager starts the provider itself (auto reconnect on) and announces at once; the twin, same
+		// configuration on a fake provider, tells which TXT record is the requested one
+		mk := func() *mdns.MdnsManager {
+			return mdns.NewMDNS("1234567890123456789012345678901234567890", "brand", "model", "type", "serial", nil, "id", "svc", 4711, nil, mdns.MdnsProviderSelectionAll)
+		}
+		mgr, twin = mk(), mk()
+		if err := twin.VerifStartWithProvider(twinProv, nil); err != nil {
+			res.Herr = "twin: " + err.Error()
+			return res
+		}
+		if err := mgr.VerifStartWithProvider(prov, nil); err != nil {
+			res.Herr = "manager did not start against an available daemon: " + err.Error()
+			return res
+		}
+	} else if !prov.Start(sc.AutoReconnect, cb) {
 		res.Herr = "provider did not start against an available daemon"
 		return res
 	}
 	synctest.Wait()
 
 	var desired []string // nil = no announcement active
+	if sc.ViaManager {
+		if a, ok := twinProv.Last(); ok {
+			desired = a.Txt
+		}
+	}
 	shutdown := false
 	var cntAtShutdown [4]int
 	stableSince := time.Now() // daemon available and nothing disturbed since
@@ -130,8 +156,9 @@ func runC19(sc C19Script) *c19Result {
 		synctest.Wait()
 		probeNo++
 		name := fmt.Sprintf("probe-%d", probeNo)
+		probeSki := fmt.Sprintf("%040d", probeNo)
 		daemon.Emit(avahi.Service{Interface: 2, Name: name, Type: "_ship._tcp", Domain: "local", Host: "h.local", Address: "192.168.1.9", Port: 4711,
-			Txt: [][]byte{[]byte("txtvers=1")}}, false)
+			Txt: [][]byte{[]byte("txtvers=1"), []byte("path=/ship/"), []byte("id=" + name), []byte("ski=" + probeSki), []byte("register=false")}}, false)
 		synctest.Wait()
 		mu.Lock()
 		ok := false
@@ -141,6 +168,9 @@ func runC19(sc C19Script) *c19Result {
 			}
 		}
 		mu.Unlock()
+		if sc.ViaManager {
+			ok = mgr.VerifEntries()[probeSki] != nil
+		}
 		if !ok {
 			fail("C19/browse-result-lost", "%s: a service that appeared after the reconnect was not reported to the resolver callback", where)
 		}
@@ -172,6 +202,16 @@ func runC19(sc C19Script) *c19Result {
 			if outage() {
 				res.Outage = true
 			}
+			if sc.ViaManager {
+				mgr.SetAutoAccept(ev.N%2 == 0)
+				twin.SetAutoAccept(ev.N%2 == 0)
+				_ = mgr.AnnounceMdnsEntry()
+				_ = twin.AnnounceMdnsEntry()
+				if a, ok := twinProv.Last(); ok {
+					desired = a.Txt
+				}
+				continue
+			}
 			txt := c19Txt(ev.N)
 			_ = prov.Announce("svc", 4711, txt)
 			desired = txt
@@ -183,7 +223,12 @@ func runC19(sc C19Script) *c19Result {
 			if outage() {
 				res.Outage = true
 			}
-			prov.Unannounce()
+			if sc.ViaManager {
+				mgr.UnannounceMdnsEntry()
+				twin.UnannounceMdnsEntry()
+			} else {
+				prov.Unannounce()
+			}
 			desired = nil
 		case "shutdown":
 			if shutdown {
@@ -192,8 +237,20 @@ func runC19(sc C19Script) *c19Result {
 			if outage() {
 				res.Outage = true
 			}
+			if ev.B {
+				// a service is found while the provider is giving up its browser
+				daemon.EmitOnFree(avahi.Service{Interface: 2, Name: "late-comer", Type: "_ship._tcp", Domain: "local", Host: "h.local", Address: "192.168.1.77", Port: 4711,
+					Txt: [][]byte{[]byte("txtvers=1")}})
+			}
 			done := make(chan struct{})
-			go func() { prov.Shutdown(); close(done) }()
+			go func() {
+				if sc.ViaManager {
+					mgr.Shutdown()
+				} else {
+					prov.Shutdown()
+				}
+				close(done)
+			}()
 			synctest.Wait()
 			// a browse result that is being resolved (slow D-Bus round trip) now gets its answer
 			daemon.ReleaseResolve()
@@ -298,7 +355,7 @@ func judgeC19(t *testing.T, sc C19Script) (key, msg string, res *c19Result) {
 }
 
 func genC19(t *rapid.T) C19Script {
-	sc := C19Script{AutoReconnect: rapid.Bool().Draw(t, "autoReconnect")}
+	sc := C19Script{AutoReconnect: rapid.Bool().Draw(t, "autoReconnect"), ViaManager: rapid.IntRange(0, 2).Draw(t, "viaManager") == 0}
 	n := rapid.IntRange(1, 25).Draw(t, "n")
 	for i := 0; i < n; i++ {
 		var ev C19Event
@@ -315,7 +372,7 @@ func genC19(t *rapid.T) C19Script {
 			if rapid.IntRange(0, 2).Draw(t, "reallyShutdown") != 0 {
 				ev = C19Event{K: "advance", D: int64(time.Second)}
 			} else {
-				ev = C19Event{K: "shutdown"}
+				ev = C19Event{K: "shutdown", B: rapid.Bool().Draw(t, "foundWhileFreeing")}
 			}
 		case 8:
 			ev = C19Event{K: rapid.SampledFrom([]string{"add", "add", "addheld"}).Draw(t, "addKind"), N: rapid.IntRange(0, 3).Draw(t, "peer")}
